@@ -28,6 +28,13 @@ theorem scalarEq_eq : ∀ {a b : Ty}, scalarEq a b = true → a = b
   | .tuple as, .tuple bs, h => by
     simp only [scalarEq] at h
     rw [scalarEqs_eq h]
+  | .array l a, .array l' b, h => by
+    simp only [scalarEq, Bool.and_eq_true, beq_iff_eq] at h
+    rw [h.1.1.1, scalarEq_eq h.2]
+  | .array _ _, .unit, h | .array _ _, .bool, h | .array _ _, .string, h | .array _ _, .int _ _, h | .array _ _, .struct _, h
+  | .array _ _, .enum _, h | .array _ _, .float _, h | .array _ _, .ref _, h | .array _ _, .dyn _, h | .array _ _, .app _ _, h
+  | .array _ _, .tuple _, h | .array _ _, .vec _, h | .array _ _, .param _, h | .array _ _, .func _ _, h | .array _ _, .tvar _, h => by
+    simp [scalarEq] at h
   | .unit, b, h => by cases b <;> simp [scalarEq] at h <;> rfl
   | .bool, b, h => by cases b <;> simp [scalarEq] at h <;> rfl
   | .string, b, h => by cases b <;> simp [scalarEq] at h <;> rfl
@@ -37,7 +44,6 @@ theorem scalarEq_eq : ∀ {a b : Ty}, scalarEq a b = true → a = b
   | .float _, b, h => by cases b <;> simp [scalarEq] at h
   | .dyn _, b, h => by cases b <;> simp [scalarEq] at h
   | .app _ _, b, h => by cases b <;> simp [scalarEq] at h
-  | .array _ _, b, h => by cases b <;> simp [scalarEq] at h
   | .vec _, b, h => by cases b <;> simp [scalarEq] at h
   | .param _, b, h => by cases b <;> simp [scalarEq] at h
   | .func _ _, b, h => by cases b <;> simp [scalarEq] at h
@@ -63,8 +69,11 @@ mutual
 theorem scalarEq_refl : ∀ {a : Ty}, flatTy a = true → scalarEq a a = true
   | .ref e, h => by simp only [flatTy] at h; simp only [scalarEq]; exact scalarEq_refl h
   | .tuple ts, h => by simp only [flatTy] at h; simp only [scalarEq]; exact scalarEqs_refl h
+  | .array len e, h => by
+    simp only [flatTy, Bool.and_eq_true] at h
+    simp only [scalarEq, beq_self_eq_true, Bool.true_and, Bool.and_eq_true]; exact ⟨h.1, scalarEq_refl h.2⟩
   | .unit, _ | .bool, _ | .string, _ | .int _ _, _ | .struct _, _ | .enum _, _ => by simp [scalarEq]
-  | .float _, h | .dyn _, h | .app _ _, h | .array _ _, h | .vec _, h | .param _, h | .func _ _, h
+  | .float _, h | .dyn _, h | .app _ _, h | .vec _, h | .param _, h | .func _ _, h
   | .tvar _, h => by simp [flatTy, scalarTy] at h
 theorem scalarEqs_refl : ∀ {ts : List Ty}, flatTys ts = true → scalarEqs ts ts = true
   | [], _ => rfl
@@ -78,8 +87,11 @@ mutual
 theorem scalarEq_self_flat : ∀ {a : Ty}, scalarEq a a = true → flatTy a = true
   | .ref e, h => by simp only [scalarEq] at h; simp only [flatTy]; exact scalarEq_self_flat h
   | .tuple ts, h => by simp only [scalarEq] at h; simp only [flatTy]; exact scalarEqs_self_flat h
+  | .array len e, h => by
+    simp only [scalarEq, Bool.and_eq_true] at h
+    simp only [flatTy, Bool.and_eq_true]; exact ⟨⟨h.1.1.2, h.1.2⟩, scalarEq_self_flat h.2⟩
   | .unit, _ | .bool, _ | .string, _ | .int _ _, _ | .struct _, _ | .enum _, _ => rfl
-  | .float _, h | .dyn _, h | .app _ _, h | .array _ _, h | .vec _, h | .param _, h | .func _ _, h
+  | .float _, h | .dyn _, h | .app _ _, h | .vec _, h | .param _, h | .func _ _, h
   | .tvar _, h => by simp [scalarEq] at h
 theorem scalarEqs_self_flat : ∀ {ts : List Ty}, scalarEqs ts ts = true → flatTys ts = true
   | [], _ => rfl
@@ -126,6 +138,8 @@ def tyOfVal (η : Hp) : Val → Option Ty
   | .enumV n _ _ => some (.enum n)
   | .ref l => (η.tys[l]?).map Ty.ref
   | .tuple vs => (tysOfVals η vs).map Ty.tuple
+  | .array [] => none
+  | .array (v :: vs) => (tyOfVal η v).map (Ty.array (vs.length + 1))
   | _ => none
 def tysOfVals (η : Hp) : List Val → Option (List Ty)
   | [] => some []
@@ -161,6 +175,7 @@ def toGV (env : Env) (η : Hp) : Val → Option GVal
     match tysOfVals η vs, toGVs env η vs with
     | some ts, some gs => some (.struct (goTypeNameFor (.tuple ts)) ((fieldNames 0 gs.length).zip gs))
     | _, _ => none
+  | .array vs => (toGVs env η vs).map GVal.array
   | _ => none
 def toGVs (env : Env) (η : Hp) : List Val → Option (List GVal)
   | [] => some []
@@ -193,6 +208,7 @@ def HasTy (env : Env) (η : Hp) : Val → Ty → Prop
        | none => False)
   | .ref l, .ref e => η.tys[l]? = some e
   | .tuple vs, .tuple ts => HasTys env η vs ts
+  | .array vs, .array len e => 1 ≤ len ∧ HasTys env η vs (List.replicate len e)
   | _, _ => False
 def HasTys (env : Env) (η : Hp) : List Val → List Ty → Prop
   | [], [] => True
@@ -356,7 +372,13 @@ theorem tyOfVal_mono {η η' : Hp} (hle : η.le η') : ∀ (v : Val) (t : Ty), t
     | some ts => rw [hts] at h; rw [tysOfVals_mono hle vs ts hts]; exact h
   | .unit, t, h | .bool _, t, h | .int _ _ _, t, h | .str _, t, h | .structV _ _, t, h | .enumV _ _ _, t, h => by
     simpa [tyOfVal] using h
-  | .float _ _, t, h | .array _, t, h | .vec _, t, h | .closure _ _ _, t, h | .fn _, t, h | .dyn _ _ _, t, h => by
+  | .array [], t, h => by simp [tyOfVal] at h
+  | .array (v :: vs), t, h => by
+    simp only [tyOfVal] at h ⊢
+    cases h1 : tyOfVal η v with
+    | none => rw [h1] at h; simp at h
+    | some e => rw [h1] at h; rw [tyOfVal_mono hle v e h1]; exact h
+  | .float _ _, t, h | .vec _, t, h | .closure _ _ _, t, h | .fn _, t, h | .dyn _ _ _, t, h => by
     simp [tyOfVal] at h
 theorem tysOfVals_mono {η η' : Hp} (hle : η.le η') : ∀ (vs : List Val) (ts : List Ty), tysOfVals η vs = some ts → tysOfVals η' vs = some ts
   | [], ts, h => by simpa [tysOfVals] using h
@@ -385,7 +407,11 @@ theorem toGV_mono {env : Env} {η η' : Hp} (hle : η.le η') : ∀ (v : Val) (g
       cases hgs : toGVs env η vs with
       | none => rw [hts, hgs] at h; simp at h
       | some gs => rw [hts, hgs] at h; rw [tysOfVals_mono hle vs ts hts, toGVs_mono hle vs gs hgs]; exact h
-  | .array _, gv, h => by simp [toGV] at h
+  | .array vs, gv, h => by
+    simp only [toGV] at h ⊢
+    cases hgs : toGVs env η vs with
+    | none => rw [hgs] at h; simp at h
+    | some gs => rw [hgs] at h; rw [toGVs_mono hle vs gs hgs]; exact h
   | .vec _, gv, h => by simp [toGV] at h
   | .closure _ _ _, gv, h => by simp [toGV] at h
   | .fn _, gv, h => by simp [toGV] at h
@@ -454,7 +480,9 @@ theorem HasTy_mono {env : Env} {η η' : Hp} (hle : η.le η') : ∀ (v : Val) (
   | .tuple vs, t, h => by
     cases t <;> simp only [HasTy] at h ⊢ <;> try exact h.elim
     exact HasTys_mono hle vs _ h
-  | .array _, t, h => by cases t <;> simp only [HasTy] at h
+  | .array vs, t, h => by
+    cases t <;> simp only [HasTy] at h ⊢ <;> try exact h.elim
+    exact ⟨h.1, HasTys_mono hle vs _ h.2⟩
   | .vec _, t, h => by cases t <;> simp only [HasTy] at h
   | .closure _ _ _, t, h => by cases t <;> simp only [HasTy] at h
   | .fn _, t, h => by cases t <;> simp only [HasTy] at h
@@ -590,8 +618,12 @@ theorem flat_not_absurd : ∀ {t : Ty}, flatTy t = true → absurdTy (goTy t) = 
     simp only [goTy, absurdTy]
     exact flats_not_absurd 0 h
   | .ref e, _ => by simp [goTy, absurdTy]
+  | .array len e, h => by
+    simp only [flatTy, Bool.and_eq_true, decide_eq_true_eq] at h
+    simp only [goTy, absurdTy, flat_not_absurd h.2, Bool.or_false, decide_eq_false_iff_not]
+    omega
   | .unit, _ | .bool, _ | .string, _ | .int _ _, _ | .struct _, _ | .enum _, _ => by simp [goTy, absurdTy]
-  | .float _, h | .dyn _, h | .app _ _, h | .array _ _, h | .vec _, h | .param _, h | .func _ _, h
+  | .float _, h | .dyn _, h | .app _ _, h | .vec _, h | .param _, h | .func _ _, h
   | .tvar _, h => by simp [flatTy, scalarTy] at h
 theorem flats_not_absurd : ∀ (i : Nat) {ts : List Ty}, flatTys ts = true → absurdFields (goTyFields i ts) = false
   | i, [], _ => by rw [goTyFields, absurdFields]
@@ -599,6 +631,12 @@ theorem flats_not_absurd : ∀ (i : Nat) {ts : List Ty}, flatTys ts = true → a
     simp only [flatTys, Bool.and_eq_true] at h
     rw [goTyFields, absurdFields, flat_not_absurd h.1, flats_not_absurd (i + 1) h.2]; rfl
 end
+
+theorem hasTys_len {env : Env} {η : Hp} : ∀ (vs : List Val) (ts : List Ty), HasTys env η vs ts → vs.length = ts.length
+  | [], [], _ => rfl
+  | [], _ :: _, h => by simp [HasTys] at h
+  | _ :: _, [], h => by simp [HasTys] at h
+  | v :: vs, t :: ts, h => by simp only [HasTys] at h; simp [hasTys_len vs ts h.2]
 
 mutual
 /-- a typed value has exactly that type (`tyOfVal`) -/
@@ -616,7 +654,24 @@ theorem tyOfVal_hasTy {env : Env} {η : Hp} : ∀ (v : Val) (t : Ty), HasTy env 
   | .tuple vs, t, h => by cases t <;> simp only [HasTy] at h <;> try exact h.elim
                           simp [tyOfVal, tysOfVals_hasTys vs _ h]
   | .float _ _, t, h => by cases t <;> simp [HasTy] at h
-  | .array _, t, h => by cases t <;> simp [HasTy] at h
+  | .array [], t, h => by
+    cases t <;> simp only [HasTy] at h <;> try exact h.elim
+    rename_i len e
+    obtain ⟨h1, h2⟩ := h
+    cases len with
+    | zero => omega
+    | succ k => simp [List.replicate, HasTys] at h2
+  | .array (v :: vs), t, h => by
+    cases t <;> simp only [HasTy] at h <;> try exact h.elim
+    rename_i len e
+    obtain ⟨h1, h2⟩ := h
+    cases len with
+    | zero => simp [List.replicate, HasTys] at h2
+    | succ k =>
+      simp only [List.replicate, HasTys] at h2
+      have hlen : vs.length = k := by
+        have := hasTys_len vs _ h2.2; simpa using this
+      simp [tyOfVal, tyOfVal_hasTy v e h2.1, hlen]
   | .vec _, t, h => by cases t <;> simp [HasTy] at h
   | .closure _ _ _, t, h => by cases t <;> simp [HasTy] at h
   | .fn _, t, h => by cases t <;> simp [HasTy] at h
